@@ -174,7 +174,7 @@ def _add_edge(
 
 
 def _add_instr(
-    instr_registry: SelfIndexSet[ICaseString],
+    instr_registry: IndexedSet[ICaseString],
     cap_registry: SelfIndexSet[ICaseString],
     instr: str,
     cap: str,
@@ -261,7 +261,7 @@ def _add_unit(
     unit_registry.add(unit_name)
 
 
-def _chk_instr(instr: str, instr_registry: SelfIndexSet[ICaseString]) -> None:
+def _chk_instr(instr: str, instr_registry: IndexedSet[ICaseString]) -> None:
     """Check the given instruction.
 
     `instr` is the instruction.
@@ -377,7 +377,10 @@ def _create_isa(
     and standard capability names.
 
     """
-    instr_registry = SelfIndexSet[ICaseString]()
+    # Instructions collide when the keys they are stored under do.
+    instr_registry = IndexedSet[ICaseString](
+        lambda instr: instr.raw_str.upper()
+    )
     return {
         instr.upper(): _add_instr(instr_registry, cap_registry, instr, cap)
         for instr, cap in isa_spec
